@@ -430,7 +430,7 @@ fn sample_case(item: u64, rng: &mut Rng, acc: &mut Acc) {
 }
 
 pub fn run(ctx: &Ctx) -> i32 {
-    let n_items = ctx.n(600, 30_000);
+    let n_items = ctx.n(6000, 60_000);
     let acc = par_items(ctx, "C16", n_items, |item, rng, acc| {
         if item % 3 == 2 {
             sample_case(item, rng, acc);
